@@ -11,7 +11,7 @@ REPO = os.environ.get('HIDC_REPO', '/repo')
 
 
 def step_codegen_tests():
-    """Upstream tests/test_codegen.py (52 tests) against the VM via the shim."""
+    """1. Upstream tests/test_codegen.py (52 tests) against the VM via the spasm shim."""
     env = dict(os.environ, PYTHONPATH=os.path.join(HERE, 'spasm_shim') + os.pathsep + REPO)
     r = subprocess.run([sys.executable, '-m', 'pytest', '-q', '-p', 'no:cacheprovider', 'tests/test_codegen.py'],
                        cwd=REPO, env=env, capture_output=True, text=True)
@@ -20,12 +20,301 @@ def step_codegen_tests():
     return r.returncode == 0
 
 
+README_CASES = [
+    ('hello', 'examples/hello.hid', [], b'Hello world!\nSome numbers: 1 2 3 4 5 6 7 8 9 10\n', ['win']),
+    ('stop', 'empty @is_you() { try { writeln("> try block"); !is_defeat(); } stop { writeln("> stop block"); } }', [],
+     b'> try block\n> stop block\n', ['win']),
+    ('undo', 'empty @is_you() { try { writeln("> try block"); !is_defeat(); } undo { writeln("> undo block"); } }', [],
+     b'> undo block\n', ['win']),
+    ('halting', 'empty @is_you() { try { writeln("The loop runs forever"); while (true) {} !is_defeat(); } undo { writeln("The loop terminates"); } }',
+     [], b'The loop runs forever\n', []),
+    ('max', 'examples/max.hid', [[3, 9, 2, 9, 4]], b'Max value: 9\n', ['win']),
+    ('nonlocal', 'empty !baba() { if (false) { preempt {} } } empty @is_you() { try { !baba(); !is_defeat(); } undo {} }', [],
+     b'', ['nonlocal_preempt', 'error']),
+    ('mergesort', 'examples/mergesort.hid', [[5, 3, 9, 1, 7, 2, 8]], b'Sorted: [1, 2, 3, 5, 7, 8, 9]\n', ['progress', 'win']),
+    ('optional_max', 'examples/optional_max.hid', [[4, 8, 1]], b'Max value: 8\n', ['win']),
+]
+
+
+def step_readme_examples():
+    """2. Documented outputs of the README / example programs on the VM and on the reference interpreter."""
+    from harness.execute import execute
+    from gen.programs import argv_strings
+    from ref.parse import parse_program
+    from ref.types import check_program
+    from ref.interp import run_reference
+    ok = True
+    for name, src, vals, out, flags in README_CASES:
+        if src.startswith('examples/'):
+            src = open(os.path.join(REPO, src)).read()
+        r = execute(src, argv_strings(vals), budget=5_000_000)
+        prog = parse_program(src)
+        check_program(prog)
+        o = run_reference(prog, vals, 2, budget=3_000_000, max_flips=200000)
+        good = r.out == out and r.flags == flags and r.outcome == 'forever' and o.output == out and o.flags == flags
+        if not good:
+            print('  README case %s: VM %r %r %s; reference %r %r %s; documented %r %r' % (name, r.out, r.flags, r.outcome, o.output, o.flags, o.kind, out, flags))
+        ok = ok and good
+    print('selftest 2 (README outputs on VM and reference, %d programs):' % len(README_CASES), 'ok' if ok else 'FAILED')
+    return ok
+
+
+def naive_run(prog, budget=3000):
+    """The definition, by plain recursion: at `j X` jump iff not jumping leads to halt; a state that reaches
+    itself again on the current path does not halt."""
+    import svm
+    code = prog.code
+    ws = prog.ws
+    mask = (1 << 8 * ws) - 1
+    steps = [0]
+
+    class Out(Exception):
+        pass
+
+    def val(o, mem):
+        k, v = o
+        if k == 'i':
+            return v
+        return int.from_bytes(mem[v:v + ws], 'little')
+
+    def step(pc, mem, events, onpath=frozenset()):
+        """-> ('halt',) | ('next', pc, mem) ; events appended when not None"""
+        steps[0] += 1
+        if steps[0] > budget:
+            raise Out()
+        if not (0 <= pc < len(code)):
+            return ('halt',)
+        op, a = code[pc]
+        if op == 'halt':
+            return ('halt',)
+        if op == 'j':
+            target = val(a[0], mem)
+            if halts(pc + 1, mem, onpath):
+                return ('next', target, mem)
+            return ('next', pc + 1, mem)
+        if op in ('heq', 'hne', 'hlt', 'hge'):
+            x, y = val(a[0], mem), val(a[1], mem)
+            sx = x - (mask + 1) if x >> (8 * ws - 1) else x
+            sy = y - (mask + 1) if y >> (8 * ws - 1) else y
+            h = {'heq': x == y, 'hne': x != y, 'hlt': sx < sy, 'hge': sx >= sy}[op]
+            return ('halt',) if h else ('next', pc + 1, mem)
+        if op == 'yield':
+            if events is not None:
+                events.append(('out', val(a[0], mem) & 0xFF))
+            return ('next', pc + 1, mem)
+        if op == 'flag':
+            if events is not None:
+                events.append(('flag', a[0][1]))
+            return ('next', pc + 1, mem)
+        d = a[0][1]
+        y = val(a[1], mem)
+        if op == 'mov':
+            r = y
+        else:
+            z = val(a[2], mem)
+            r = {'add': y + z, 'sub': y - z, 'and': y & z, 'xor': y ^ z}[op]
+        m2 = bytearray(mem)
+        m2[d:d + ws] = (r & mask).to_bytes(ws, 'little')
+        return ('next', pc + 1, bytes(m2))
+
+    def halts(pc, mem, onpath):
+        while True:
+            key = (pc, mem)
+            if key in onpath:
+                return False
+            onpath = onpath | {key}
+            r = step(pc, mem, None, onpath)
+            if r[0] == 'halt':
+                return True
+            _, pc, mem = r
+
+    events = []
+    seen = set()
+    pc, mem = 0, bytes(prog.state)
+    try:
+        while True:
+            key = (pc, mem)
+            if key in seen:
+                return 'forever', events
+            seen.add(key)
+            r = step(pc, mem, events, frozenset(seen))
+            if r[0] == 'halt':
+                return 'halt', events
+            _, pc, mem = r
+    except Out:
+        return 'budget', events
+
+
+def step_vm_vs_naive():
+    """3. The VM's backtracking implementation of the Turing jump against the naive recursive definition."""
+    import hypothesis
+    from hypothesis import given, settings, strategies as st, HealthCheck
+    import svm
+    regs = ['a', 'b', 'c']
+    operand = st.one_of(st.integers(0, 3).map(str), st.sampled_from(regs).map(lambda r: '[%s]' % r))
+
+    @st.composite
+    def program(draw):
+        n = draw(st.integers(2, 12))
+        lines = ['%format word 1', '%section state'] + ['%s: .word %d' % (r, draw(st.integers(0, 3))) for r in regs] + ['%section code']
+        for i in range(n):
+            k = draw(st.integers(0, 9))
+            lab = 'L%d: ' % i
+            if k <= 1:
+                ins = 'j L%d' % draw(st.integers(0, n - 1))
+            elif k == 2:
+                ins = 'halt'
+            elif k == 3:
+                ins = '%s %s, %s' % (draw(st.sampled_from(['heq', 'hne', 'hlt', 'hge'])), draw(operand), draw(operand))
+            elif k == 4:
+                ins = 'yield %s' % draw(operand)
+            elif k == 5:
+                ins = 'flag f%d' % draw(st.integers(0, 2))
+            elif k == 6:
+                ins = 'mov [%s], %s' % (draw(st.sampled_from(regs)), draw(operand))
+            else:
+                ins = '%s [%s], %s, %s' % (draw(st.sampled_from(['add', 'sub', 'and', 'xor'])), draw(st.sampled_from(regs)), draw(operand), draw(operand))
+            lines.append(lab + ins)
+        return lines
+
+    count = [0, 0]
+
+    @hypothesis.seed(20260922)
+    @settings(max_examples=4000, database=None, deadline=None, suppress_health_check=list(HealthCheck))
+    @given(program())
+    def t(lines):
+        prog = svm.assemble(lines)
+        res = svm.VM(prog).run(budget=200000)
+        kind, ev = naive_run(prog)
+        if kind == 'budget' or res.outcome == svm.BUDGET:
+            return
+        count[0] += 1
+        assert res.outcome == kind, (lines, res.outcome, kind)
+        if kind == 'halt':
+            assert res.events == ev, (lines, res.events, ev)
+        else:
+            count[1] += 1
+            n = min(len(res.events), len(ev))
+            assert res.events[:n] == ev[:n], (lines, res.events, ev)
+
+    try:
+        t()
+    except AssertionError as e:
+        print('selftest 3 (VM vs naive jump semantics): MISMATCH', str(e)[:800])
+        return False
+    print('selftest 3 (VM vs naive jump semantics): %d tiny programs agree (%d non-halting)' % (count[0], count[1]))
+    return count[0] > 500
+
+
+def step_printer_parser_loop():
+    """4. printer / reference lexer / reference parsers closed loop on generated expressions and programs."""
+    import hypothesis
+    from hypothesis import given, settings, HealthCheck
+    import hast
+    from hast.printer import expr_tokens, to_source
+    from props.C11 import rand_tree, canon, nested_spec
+    from ref import expr as RE
+    from ref.parse import parse_program
+    from gen.programs import programs, ALL_FEATURES
+    n = [0, 0]
+
+    @hypothesis.seed(7)
+    @settings(max_examples=1500, database=None, deadline=None, suppress_health_check=list(HealthCheck))
+    @given(rand_tree(6))
+    def t1(e):
+        if nested_spec(e):
+            return
+        for mode in ('min', 'full'):
+            text = ' '.join(expr_tokens(e, mode))
+            assert RE.parse_expr(text) == canon(e), (text, RE.parse_expr(text), canon(e))
+        n[0] += 1
+
+    def strip(x):
+        """tuple form of a program without Paren nodes and types"""
+        if isinstance(x, hast.Paren):
+            return strip(x.e)
+        if isinstance(x, hast.Node):
+            if isinstance(x, hast.Lit) and x.kind == 'int' and x.value < 0:
+                return ('Un', '-', ('Lit', 'int', -x.value, None))
+            return (type(x).__name__,) + tuple(strip(getattr(x, f)) for f in x.fields)
+        if isinstance(x, (list, tuple)):
+            return tuple(strip(v) for v in x)
+        return x
+
+    @hypothesis.seed(8)
+    @settings(max_examples=300, database=None, deadline=None, suppress_health_check=list(HealthCheck))
+    @given(programs(features=ALL_FEATURES))
+    def t2(case):
+        prog = case[0]
+        back = parse_program(to_source(prog))
+        assert strip(back) == strip(prog), to_source(prog)
+        n[1] += 1
+
+    try:
+        t1()
+        t2()
+    except AssertionError as e:
+        print('selftest 4 (printer/parser closed loop): MISMATCH', str(e)[:600])
+        return False
+    print('selftest 4 (printer/parser closed loop): %d expression trees, %d programs round-trip' % (n[0], n[1]))
+    return True
+
+
+def step_generator_welltyped():
+    """5. ref.types accepts every program gen.programs builds and infers the types the generator annotated."""
+    import hypothesis
+    from hypothesis import given, settings, HealthCheck
+    import hast
+    from hast.printer import to_source
+    from ref.parse import parse_program
+    from ref.types import check_program, RefTypeError
+    from gen.programs import programs, ALL_FEATURES
+    n = [0]
+
+    def exprs(x, out):
+        for node in hast.walk(x):
+            if isinstance(node, hast.Un) and node.op == '-' and isinstance(node.e, hast.Lit) and node.e.kind == 'int' and node.e.value >= 0:
+                continue    # a negative literal of the generator is printed as - N
+            if isinstance(node, (hast.Bin, hast.Un, hast.Is, hast.Index, hast.Len, hast.Call, hast.Var, hast.Spec)):
+                out.append(node)
+        return out
+
+    @hypothesis.seed(9)
+    @settings(max_examples=400, database=None, deadline=None, suppress_health_check=list(HealthCheck))
+    @given(programs(features=ALL_FEATURES))
+    def t(case):
+        prog = case[0]
+        src = to_source(prog)
+        back = parse_program(src)
+        try:
+            check_program(back)
+        except RefTypeError as e:
+            raise AssertionError('generator output rejected by ref.types: %s\n%s' % (e, src))
+        a = [(type(e).__name__, e.t) for e in exprs(prog, [])]
+        b = [(type(e).__name__, e.t) for e in exprs(back, [])]
+        assert a == b, 'type annotations differ: %r\n' % ([(x, y) for x, y in zip(a, b) if x != y][:3],) + src
+        n[0] += 1
+
+    try:
+        t()
+    except AssertionError as e:
+        print('selftest 5 (generator vs reference typechecker): MISMATCH', str(e)[:1500])
+        return False
+    print('selftest 5 (generator vs reference typechecker): %d programs accepted with identical annotations' % n[0])
+    return True
+
+
+STEPS = [step_codegen_tests, step_readme_examples, step_vm_vs_naive, step_printer_parser_loop, step_generator_welltyped]
+
+
 def main():
+    from harness.runner import _bigframe
+    sys.setrecursionlimit(20000)
     ok = True
     for step in STEPS:
         try:
-            good = step()
-        except Exception as e:  # noqa
+            good = _bigframe(step)
+        except Exception:  # noqa
             import traceback
             traceback.print_exc()
             good = False
@@ -33,8 +322,6 @@ def main():
     print('selftest:', 'OK' if ok else 'FAILED')
     return 0 if ok else 1
 
-
-STEPS = [step_codegen_tests]
 
 if __name__ == '__main__':
     sys.exit(main())
